@@ -201,6 +201,44 @@ Proof.
 Qed.
 Print Assumptions C08_open_flags.
 
+(* The creation mode.  compio hands openat the flag word AND the mode, always
+   both (the mode is never dropped or altered, whatever the flags); the kernel
+   consumes it exactly for O_CREAT and O_TMPFILE; in the reference a file created
+   by O_TMPFILE (unnamed, name space unchanged) or by create_new gets
+   mode & ~umask, with no umask bit left. *)
+Theorem C08_open_mode :
+  (forall o m fl m', open_request o m = Rok (fl, m') -> m' = m /\ open_flags o = Rok fl) /\
+  (forall o m, (exists fl, open_request o m = Rok (fl, m)) \/ open_request o m = Rerr E_INVALID_INPUT) /\
+  (forall r w t c cn (tmp : bool) fl,
+     open_flags (mkopts r w t c cn (if tmp then O_TMPFILE else 0%N)) = Rok fl ->
+     mode_consumed fl = (c || cn || tmp)%bool) /\
+  (forall fs p fl m seq fs' h,
+     has_flag fl O_TMPFILE_BIT = true -> fs_open fs p fl m seq = (fs', Rok h) ->
+     exists i, hk h = HFile i /\ h_perm fs' h = created_mode m /\ nodes fs' = nodes fs /\
+               idata (get_inode fs' i) = []) /\
+  (forall fs p fl m seq fs' h,
+     has_flag fl O_TMPFILE_BIT = false -> has_flag fl O_CREAT = true -> has_flag fl O_EXCL = true ->
+     fs_open fs p fl m seq = (fs', Rok h) -> h_perm fs' h = created_mode m) /\
+  (forall m, N.land (created_mode m) UMASK = 0%N).
+Proof.
+  split; [exact open_request_mode|]. split; [exact open_request_total|].
+  split; [exact mode_consumed_iff|]. split; [exact tmpfile_mode|].
+  split; [exact create_new_mode|exact created_mode_umask].
+Qed.
+Print Assumptions C08_open_mode.
+
+(* create_dir_all (DirBuilder::recursive(true).create, the algorithm of
+   utils/mod.rs): when the path already IS a directory in the sense of
+   metadata() — a real directory or, followed, a symbolic link to one, at the
+   final component or through linked components — the call is Ok and changes
+   nothing, like std::fs::create_dir_all.  (That the code's check is the
+   following metadata() and not symlink_metadata() is what the correspondence
+   observes on trees with links.) *)
+Theorem C08_create_dir_all_existing : forall fuel fs p,
+  p <> [] -> fs_is_dir fs p = true -> fs_mkdir_all (S fuel) fs p = (fs, Rok tt).
+Proof. exact mkdir_all_existing_dir. Qed.
+Print Assumptions C08_create_dir_all_existing.
+
 (* ---------------------------------------------------------------------- *)
 (* driver independence (in the model)                                      *)
 
@@ -290,3 +328,20 @@ Example C08_clamp_witness :
   sqe_len DIoUring 4294967301%N = 4294967295%N /\ sqe_len DPoll 4294967301%N = 4294967301%N.
 Proof. split; reflexivity. Qed.
 Print Assumptions C08_clamp_witness.
+
+(* O_TMPFILE with mode 0o666 on a directory reached through a symlink: an unnamed
+   file of mode 0o644; create_dir_all on that symlink is Ok and changes nothing *)
+Example C08_mode_and_links_witness :
+  let fs := mkfs [([0], NDir); ([1], NLink [0])] [] in
+  (exists fl, open_request (mkopts false true false false false O_TMPFILE) 438 = Rok (fl, 438%N) /\
+     mode_consumed fl = true /\
+     exists fs' h, fs_open fs [1] fl 438 false = (fs', Rok h) /\ h_perm fs' h = 420%N) /\
+  fs_is_dir fs [1] = true /\ fs_mkdir_all 8 fs [1] = (fs, Rok tt) /\
+  fst (fs_mkdir fs [1]) = fs /\ snd (fs_mkdir fs [1]) = Rerr E_ALREADY_EXISTS.
+Proof.
+  cbn zeta. split.
+  - eexists. split; [vm_compute; reflexivity|]. split; [vm_compute; reflexivity|].
+    eexists. eexists. split; vm_compute; reflexivity.
+  - repeat split; vm_compute; reflexivity.
+Qed.
+Print Assumptions C08_mode_and_links_witness.
